@@ -555,23 +555,9 @@ Lemma vs_all_pct_opt : forall o, vs_all_pct o = opt_pct (vs_position o) && opt_p
 Proof. reflexivity. Qed.
 
 (* the arithmetic on an all-percent layout *)
-Lemma vtt_settings_pct : forall l2 out, all_pct l2 = true ->
-  match l_padding l2 with
-  | None => Ok (VSet (mkVs (vtt_align (l_alignment l2)) (option_map p_x (l_origin l2)) (option_map p_y (l_origin l2))
-                           (option_map st_h (l_extent l2))))
-  | Some p =>
-      do lw <- match option_map p_x (l_origin l2) with
-               | Some x => do x' <- size_add x (pd_start p);
-                           do w' <- opt_bind (option_map st_h (l_extent l2)) (fun wd => size_sub wd (pd_start p));
-                           Ok (Some x', w')
-               | None => Ok (None, option_map st_h (l_extent l2))
-               end;
-      do w2 <- opt_bind (snd lw) (fun wd => size_sub wd (pd_end p));
-      do t2 <- opt_bind (option_map p_y (l_origin l2)) (fun y => size_add y (pd_before p));
-      Ok (VSet (mkVs (vtt_align (l_alignment l2)) (fst lw) t2 w2))
-  end = Ok out -> vtt_out_pct out = true.
+Lemma vtt_settings_pct : forall l2 out, all_pct l2 = true -> vtt_arith l2 = Ok out -> vtt_out_pct out = true.
 Proof.
-  intros l2 out P2 H. destruct (all_pct_parts _ P2) as (Px & Py & Pw).
+  intros l2 out P2 H. destruct (all_pct_parts _ P2) as (Px & Py & Pw). unfold vtt_arith in H.
   destruct (l_padding l2) as [p|].
   - match type of H with (do lw <- ?X; _) = _ => destruct X as [[left' w1]|] eqn:E3; [|discriminate] end. cbn [bind fst snd] in H.
     match type of H with (do w2 <- ?X; _) = _ => destruct X as [w2|] eqn:E4; [|discriminate] end. cbn [bind] in H.
@@ -602,20 +588,7 @@ Proof.
   assert (Main : (if negb (w_rel c) && negb (layout_is_relative l) then Ok VNone else
       do l1 <- (if w_rel c then layout_as_pct l (w_w c) (w_h c) else Ok l);
       do l2 <- (if w_fit c then layout_fit l1 else Ok l1);
-      match l_padding l2 with
-      | None => Ok (VSet (mkVs (vtt_align (l_alignment l2)) (option_map p_x (l_origin l2)) (option_map p_y (l_origin l2))
-                               (option_map st_h (l_extent l2))))
-      | Some p =>
-          do lw <- match option_map p_x (l_origin l2) with
-                   | Some x => do x' <- size_add x (pd_start p);
-                               do w' <- opt_bind (option_map st_h (l_extent l2)) (fun wd => size_sub wd (pd_start p));
-                               Ok (Some x', w')
-                   | None => Ok (None, option_map st_h (l_extent l2))
-                   end;
-          do w2 <- opt_bind (snd lw) (fun wd => size_sub wd (pd_end p));
-          do t2 <- opt_bind (option_map p_y (l_origin l2)) (fun y => size_add y (pd_before p));
-          Ok (VSet (mkVs (vtt_align (l_alignment l2)) (fst lw) t2 w2))
-      end) = Ok out -> vtt_out_pct out = true).
+      vtt_arith l2) = Ok out -> vtt_out_pct out = true).
   { clear H. intros H. destruct (negb (w_rel c) && negb (layout_is_relative l)) eqn:D; [inversion H; reflexivity|].
     assert (P1 : forall l1, (if w_rel c then layout_as_pct l (w_w c) (w_h c) else Ok l) = Ok l1 -> all_pct l1 = true).
     { intros l1 E. destruct (w_rel c).
